@@ -444,6 +444,14 @@ CASES_QUICK = [
     dict(name="cam_empty@fresh", frame="cam_empty", known=(), families=STRUCT, expect_delivered=True),
     dict(name="cam_1@fresh", frame="cam_1", known=(), families=STRUCT, expect_delivered=True),
 ]
+AFTER = ("bitflip", "truncation", "extension", "substitution", "field", "attacker", "unsecured")
+# the same families on a receiver that HAS ALREADY ACCEPTED the genuine packet (stateful shortcuts: caches of verified
+# signatures / signers / payloads must not let a modified copy through)
+CASES_QUICK += [
+    dict(name="cam_cert@after_genuine", frame="cam_cert", known=(), prime="cam_cert", families=AFTER, expect_delivered=None),
+    dict(name="cam_digest@after_genuine", frame="cam_digest", known=("AT1",), prime="cam_digest", families=AFTER, expect_delivered=None),
+    dict(name="gen@after_genuine", frame="gen", known=("AT1",), prime="gen", families=("bitflip", "field", "extension"), expect_delivered=None),
+]
 CASES_THOROUGH = [
     dict(name="cam_cert@fresh", frame="cam_cert", known=(), families=ALLF, expect_delivered=True),
     dict(name="cam_cert@knows", frame="cam_cert", known=("AT1",), families=ALLF, expect_delivered=True),
@@ -459,6 +467,12 @@ CASES_THOROUGH = [
     dict(name="cam_empty@fresh", frame="cam_empty", known=(), families=ALLF, expect_delivered=True),
     dict(name="cam_1@fresh", frame="cam_1", known=(), families=ALLF, expect_delivered=True),
     dict(name="cam_long@fresh", frame="cam_long", known=(), families=STRUCT + ("chain", "substitution"), expect_delivered=True),
+    dict(name="cam_cert@after_genuine", frame="cam_cert", known=(), prime="cam_cert", families=ALLF, expect_delivered=None),
+    dict(name="cam_digest@after_genuine", frame="cam_digest", known=("AT1",), prime="cam_digest", families=ALLF, expect_delivered=None),
+    dict(name="cam_digest@after_cam_cert", frame="cam_digest", known=(), prime="cam_cert", families=ALLF, expect_delivered=None),
+    dict(name="gen@after_genuine", frame="gen", known=("AT1",), prime="gen", families=ALLF, expect_delivered=None),
+    dict(name="vam_cert@after_genuine", frame="vam_cert", known=(), prime="vam_cert", families=ALLF, expect_delivered=None),
+    dict(name="denm@after_genuine", frame="denm", known=(), prime="denm", families=ALLF, expect_delivered=None),
 ]
 
 TRUST = None
@@ -480,6 +494,14 @@ def _chunk_job(args):
     memo_share = {id(p.backend): p.backend}
     stats = {}
     out = []
+    if case.get("prime"):
+        pf = capture()[case["prime"]]
+        oc0, bad0, v0 = judge(base, pf, known)
+        if oc0[0] != "delivered" or bad0:
+            out.append((dict(kind="vacuity_base_case", case=case["name"], outcome=list(oc0)), pf.hex()))
+        for c in v0.certs or []:
+            if CC.h8(c) is not None:
+                known.setdefault(CC.h8(c), c)
     for fam, lab, frame in items:
         if frame is None:
             stats[(fam, "unencodable", "-", "-")] = stats.get((fam, "unencodable", "-", "-"), 0) + 1
@@ -488,7 +510,7 @@ def _chunk_job(args):
         oc, bad, v = judge(w, frame, known)
         key = (fam, oc[0], oc[1], oc[3] or "-")
         stats[key] = stats.get(key, 0) + 1
-        if fam == "identity" and (oc[0] == "delivered") != case["expect_delivered"]:
+        if fam == "identity" and case["expect_delivered"] is not None and (oc[0] == "delivered") != case["expect_delivered"]:
             out.append((dict(kind="vacuity_base_case", case=case["name"], outcome=list(oc)), frame.hex()))
         for rec in bad:
             rec.update(case=case["name"], family=fam, mutation=lab)
@@ -532,8 +554,33 @@ def menu():
         "f_aaself": bh + S.forge(evil, 36, gt, ("certificate", [p.d("AT_aaself")]), p.sk("AT_aaself")),
         "c_cert": cap["c_cert"],
     }
+    # "replay with modification": signer and signature octets of a genuine frame kept, signed content / signer form changed
+    def variants(name):
+        f = cap[name]
+        d0 = CC.dec_data(f[4:])
+
+        def mk(label, fn):
+            d = copy.deepcopy(d0)
+            sd = d["content"][1]
+            fn(sd, sd["tbsData"], sd["tbsData"]["headerInfo"])
+            m[f"{name}~{label}"] = f[:4] + CC.enc_data(d)
+        pl0 = d0["content"][1]["tbsData"]["payload"]["data"]["content"][1]
+        mk("bit", lambda sd, tbs, hi: tbs["payload"]["data"].__setitem__("content", ("unsecuredData", pl0[:-1] + bytes([pl0[-1] ^ 1]))))
+        mk("payload", lambda sd, tbs, hi: tbs["payload"]["data"].__setitem__("content", ("unsecuredData", pl0[:36] + b"\x07\xd1\x00\x00REWRITTEN")))
+        mk("gentime", lambda sd, tbs, hi: hi.__setitem__("generationTime", hi["generationTime"] + 1000))
+        mk("psid", lambda sd, tbs, hi: hi.__setitem__("psid", 140 if hi["psid"] != 140 else 139))
+        if d0["content"][1]["signer"][0] == "certificate":
+            mk("as_digest", lambda sd, tbs, hi: sd.__setitem__("signer", ("digest", CC.h8(sd["signer"][1][0]))))
+        else:
+            mk("as_cert", lambda sd, tbs, hi: sd.__setitem__("signer", ("certificate", [p.d("AT1")])))
+    for gname in ("cam_cert", "cam_digest", "denm", "gen"):
+        variants(gname)
     _MENU = m
     return m
+
+
+VARIANTS = [f"{g}~{v}" for g in ("cam_cert", "cam_digest", "denm", "gen") for v in ("bit", "payload", "gentime", "psid")] + \
+           ["cam_cert~as_digest", "cam_digest~as_cert", "denm~as_digest", "gen~as_cert"]
 
 
 class HistModel:
@@ -648,7 +695,7 @@ def run(ctx):
     # ---- part 2: arrival orders ------------------------------------------------------------------
     names_q = ["g_cert", "g_digest", "g_denm", "g_gen", "c_digest", "f_digest", "f_chain", "f_claim", "f_resign", "f_teach",
                "t_flip", "unsec", "i_reqAA'", "i_reqAAself", "f_aaself"]
-    names = names_q + (["c_cert"] if thorough else [])
+    names = names_q + VARIANTS + (["c_cert"] if thorough else [])
     order = list(names)
     rnd.shuffle(order)
     depth = 6 if thorough else 4
@@ -692,6 +739,12 @@ def replay(path):
         return 1 if bad else 0
     case = next(c for c in CASES_THOROUGH + CASES_QUICK if c["name"] == rp["case"])
     w = receiver(case["known"])
-    oc, bad, v = judge(w, bytes.fromhex(rp["frame"]), {p.h8(n): p.d(n) for n in case["known"]})
+    known = {p.h8(n): p.d(n) for n in case["known"]}
+    if case.get("prime"):
+        oc0, _b, v0 = judge(w, capture()[case["prime"]], known)
+        print("primed with genuine", case["prime"], "->", oc0)
+        for c in v0.certs or []:
+            known.setdefault(CC.h8(c), c)
+    oc, bad, v = judge(w, bytes.fromhex(rp["frame"]), known)
     print("outcome", oc, "oracle:", v.why, "->", bad or "ok")
     return 1 if bad else 0
